@@ -355,11 +355,44 @@ class Check:
         return []
 
 
+class CaseTimeout(BaseException):
+    pass
+
+
+def _on_alarm(signum, frame):
+    raise CaseTimeout()
+
+
 def _impl_safe(chk, case):
+    """Run chk.impl(case) under a wall-clock limit (a hanging implementation must
+    not hang the check) and turn unexpected exceptions into a visible observation."""
+    import signal
+
+    import resource
+
+    limit = int(getattr(chk, "CASE_TIMEOUT", 30))
+    old = signal.signal(signal.SIGALRM, _on_alarm)
+    signal.alarm(limit)
+    soft, hard = resource.getrlimit(resource.RLIMIT_AS)
+    try:  # a runaway case must not take the machine down (soft limit only: Lean subprocesses need more)
+        resource.setrlimit(resource.RLIMIT_AS, (int(os.environ.get("VERIF_MEM_GB", "6")) << 30, hard))
+    except Exception:
+        pass
     try:
         return chk.impl(case)
+    except CaseTimeout:
+        return {"__crash__": f"timeout: the implementation did not finish this case within {limit}s"}
+    except MemoryError:
+        return {"__crash__": "MemoryError: the implementation exhausted the address-space limit on this case"}
     except Exception as e:  # harness bug or unexpected impl crash: keep it visible
         return {"__crash__": f"{type(e).__name__}: {e}", "tb": traceback.format_exc()[-1500:]}
+    finally:
+        signal.alarm(0)
+        signal.signal(signal.SIGALRM, old)
+        try:
+            resource.setrlimit(resource.RLIMIT_AS, (soft, hard))
+        except Exception:
+            pass
 
 
 def run_check(chk: Check, tier="quick", seed=0, replay=None):
@@ -584,6 +617,7 @@ def main(argv):
     a = ap.parse_args(argv)
     seed = int(os.environ.get("VERIF_SEED", "0") or 0)
     sys.path.insert(0, VERIF)
+
     try:
         mod = importlib.import_module(f"harness.props.{a.prop.lower()}")
         return run_check(mod.Prop(), a.tier, seed, a.replay)
